@@ -238,6 +238,16 @@ func (s *scope) CreateScope(ctx context.Context) (Scope, error) {
 		return nil, ErrProviderDisposed
 	}
 
+	// Closing this scope in the meantime has closed the adopted child as well,
+	// and the child's own untracking may have run before it was tracked: undo
+	// the tracking so that the provider does not keep the closed child.
+	if atomic.LoadInt32(&child.disposed) != 0 {
+		s.rootProvider.scopesMu.Lock()
+		delete(s.rootProvider.scopes, child)
+		s.rootProvider.scopesMu.Unlock()
+		return nil, ErrScopeDisposed
+	}
+
 	// Auto-close on context cancellation
 	go func() {
 		<-ctx.Done()
